@@ -20,7 +20,8 @@ SHARDS = {"quick": 16, "thorough": 16}
 RULE = ("Hypothesis-generated strings: a valid Sid string of a random configured type (values sampled from the "
         "placeholder patterns, 15% search symbols) edited 0-3 times (segment -> junk/other level/empty/search "
         "symbol/alias/comma list; drop/duplicate/append segments; control characters; uri prefix with existing, "
-        "other, unknown or empty type and 1-3 colons) plus pure junk; compared with an independent reference typing. "
+        "other, unknown or empty type and 1-3 colons, ':' inside a value) plus pure junk; compared with an independent reference typing; "
+        "every result passed through Sid() again must denote the same Sid. "
         "non-trivial = anything but an unedited valid natural string; distinct = distinct input strings")
 ASSUMPTIONS = [
     "reference model (vp/confmodel.py) implements the C01 statement: segment-wise fullmatch of placeholder patterns in configuration order",
